@@ -142,6 +142,7 @@ Section Policy.
   Lemma p_after t : polB (MAfter t).
   Proof.
     intros st st' cs H. cbn [ieval] in H. unfold evaluate_after in H.
+    destruct (e_sequence e =? SEQ_FINAL); cbn in H; [discriminate|].
     destruct (Bool.eqb _ _); cbn in H; [|discriminate]. destruct (t <=? e_locktime e); cbn in H; [|discriminate].
     inversion H; subst. exists ESat, st. repeat split; [left; reflexivity|]. intros _ W HW. cbn [psat].
     apply has_after_in, HW. left. reflexivity.
@@ -149,7 +150,8 @@ Section Policy.
   Lemma p_older t : polB (MOlder t).
   Proof.
     intros st st' cs H. cbn [ieval] in H. destruct (negb (N.land t SEQ_DISABLE =? 0)); [discriminate|].
-    unfold evaluate_older in H. destruct (negb _); cbn in H; [discriminate|].
+    unfold evaluate_older in H. destruct (e_txversion e <? 2); cbn in H; [discriminate|].
+    destruct (negb _); cbn in H; [discriminate|].
     destruct (_ && _); cbn in H; [|discriminate].
     inversion H; subst. exists ESat, st. repeat split; [left; reflexivity|]. intros _ W HW. cbn [psat].
     apply has_older_in, HW. left. reflexivity.
